@@ -22,6 +22,9 @@ type qOp struct {
 	Op  string `json:"op"` // add | bytes | toend | byte | u16 | u32 | u64 | str | read | save | restore | discard | reset | write | w8 | w16 | w32 | w64 | wstr | size | readback
 	N   int    `json:"n,omitempty"`
 	EOM bool   `json:"eom,omitempty"`
+	// Alt selects among the methods that do the same thing (Byte / Uint8 / Int8, Uint16 / Int16, ...,
+	// WriteBytes / Write, WriteUint8 / WriteInt8 / WriteByte, ...).
+	Alt int `json:"alt,omitempty"`
 }
 
 type c15Plan struct {
@@ -126,6 +129,9 @@ func (c15) Gen(r *Rand, idx int, tier string) interface{} {
 				p.Ops = append(p.Ops, qOp{Op: "reset"})
 			}
 		}
+		for i := range p.Ops {
+			p.Ops[i].Alt = r.Intn(3)
+		}
 		if r.Pct(15) {
 			// "look back" episode at a random place: remember a position, read everything, remember the end, go back,
 			// re-read a little, return to the end, then new data arrives and is read
@@ -157,6 +163,9 @@ func (c15) Gen(r *Rand, idx int, tier string) interface{} {
 			default:
 				p.Ops = append(p.Ops, qOp{Op: "size", N: 9 + r.Intn(592)})
 			}
+		}
+		for i := range p.Ops {
+			p.Ops[i].Alt = r.Intn(3)
 		}
 		p.Ops = append(p.Ops, qOp{Op: "readback"})
 	}
@@ -297,26 +306,53 @@ func (c15) Run(plan interface{}, schedSeed uint64, replay []simrt.Choice, lenien
 					}
 				case "byte":
 					beforeRead(1)
-					b, err := q.Byte()
-					expectRead("Byte", 1, []byte{b}, err)
+					switch o.Alt {
+					case 1:
+						b, err := q.Uint8()
+						expectRead("Uint8", 1, []byte{b}, err)
+					case 2:
+						b, err := q.Int8()
+						expectRead("Int8", 1, []byte{byte(b)}, err)
+					default:
+						b, err := q.Byte()
+						expectRead("Byte", 1, []byte{b}, err)
+					}
 				case "u16":
 					beforeRead(2)
-					x, err := q.Uint16()
 					b := make([]byte, 2)
-					binary.LittleEndian.PutUint16(b, x)
-					expectRead("Uint16", 2, b, err)
+					if o.Alt == 1 {
+						x, err := q.Int16()
+						binary.LittleEndian.PutUint16(b, uint16(x))
+						expectRead("Int16", 2, b, err)
+					} else {
+						x, err := q.Uint16()
+						binary.LittleEndian.PutUint16(b, x)
+						expectRead("Uint16", 2, b, err)
+					}
 				case "u32":
 					beforeRead(4)
-					x, err := q.Uint32()
 					b := make([]byte, 4)
-					binary.LittleEndian.PutUint32(b, x)
-					expectRead("Uint32", 4, b, err)
+					if o.Alt == 1 {
+						x, err := q.Int32()
+						binary.LittleEndian.PutUint32(b, uint32(x))
+						expectRead("Int32", 4, b, err)
+					} else {
+						x, err := q.Uint32()
+						binary.LittleEndian.PutUint32(b, x)
+						expectRead("Uint32", 4, b, err)
+					}
 				case "u64":
 					beforeRead(8)
-					x, err := q.Uint64()
 					b := make([]byte, 8)
-					binary.LittleEndian.PutUint64(b, x)
-					expectRead("Uint64", 8, b, err)
+					if o.Alt == 1 {
+						x, err := q.Int64()
+						binary.LittleEndian.PutUint64(b, uint64(x))
+						expectRead("Int64", 8, b, err)
+					} else {
+						x, err := q.Uint64()
+						binary.LittleEndian.PutUint64(b, x)
+						expectRead("Uint64", 8, b, err)
+					}
 				case "str":
 					beforeRead(o.N)
 					x, err := q.String(o.N)
@@ -357,6 +393,14 @@ func (c15) Run(plan interface{}, schedSeed uint64, replay []simrt.Choice, lenien
 				case "reset":
 					q.Reset()
 					all, pos, sv, bounds, slots = nil, 0, nil, nil, [3]*saved{}
+				}
+				// with unread bytes the queue may not claim that everything was consumed (nor end-of-message)
+				if len(viol) == 0 && pos < len(all) {
+					if q.AllPacketsConsumed() {
+						fail("wrong-state", "AllPacketsConsumed with unread bytes", "after op %s: %d of %d bytes are unread but AllPacketsConsumed() is true", o.Op, len(all)-pos, len(all))
+					} else if q.IsEOM() {
+						fail("wrong-state", "IsEOM with unread bytes", "after op %s: %d bytes are unread but IsEOM() is true", o.Op, len(all)-pos)
+					}
 				}
 			}
 			// finally every unread byte must still be readable
@@ -399,23 +443,50 @@ func (c15) Run(plan interface{}, schedSeed uint64, replay []simrt.Choice, lenien
 			switch o.Op {
 			case "write":
 				b := gen(o.N)
-				err = q.WriteBytes(b)
+				if o.Alt == 1 {
+					var n int
+					n, err = q.Write(b)
+					if err == nil && n != len(b) {
+						err = fmt.Errorf("Write(%d bytes) returned n=%d", len(b), n)
+					}
+				} else {
+					err = q.WriteBytes(b)
+				}
 				write(b)
 			case "w8":
 				b := gen(1)
-				err = q.WriteUint8(b[0])
+				switch o.Alt {
+				case 1:
+					err = q.WriteInt8(int8(b[0]))
+				case 2:
+					err = q.WriteByte(b[0])
+				default:
+					err = q.WriteUint8(b[0])
+				}
 				write(b)
 			case "w16":
 				b := gen(2)
-				err = q.WriteUint16(binary.LittleEndian.Uint16(b))
+				if o.Alt == 1 {
+					err = q.WriteInt16(int16(binary.LittleEndian.Uint16(b)))
+				} else {
+					err = q.WriteUint16(binary.LittleEndian.Uint16(b))
+				}
 				write(b)
 			case "w32":
 				b := gen(4)
-				err = q.WriteUint32(binary.LittleEndian.Uint32(b))
+				if o.Alt == 1 {
+					err = q.WriteInt32(int32(binary.LittleEndian.Uint32(b)))
+				} else {
+					err = q.WriteUint32(binary.LittleEndian.Uint32(b))
+				}
 				write(b)
 			case "w64":
 				b := gen(8)
-				err = q.WriteUint64(binary.LittleEndian.Uint64(b))
+				if o.Alt == 1 {
+					err = q.WriteInt64(int64(binary.LittleEndian.Uint64(b)))
+				} else {
+					err = q.WriteUint64(binary.LittleEndian.Uint64(b))
+				}
 				write(b)
 			case "wstr":
 				b := gen(o.N)
